@@ -31,7 +31,7 @@ SHARDS = {"quick": 8, "thorough": 16}
 
 
 @st.composite
-def cases(draw, modes=("exposure", "exposure", "exposure_debug", "obs_seq", "obs_dask", "obs_seq", "obs_dask", "calibration")):
+def cases(draw, modes=("exposure", "exposure", "exposure_debug", "obs_seq", "obs_dask", "obs_seq", "obs_dask", "calibration", "exposure_legacy", "obs_seq_legacy")):
     mode = draw(st.sampled_from(list(modes)))
     spec = draw(pipeline_specs(min_groups=0))
     steps = draw(st.integers(1, 4))
@@ -122,9 +122,11 @@ def body(case, rec):
     result = None
     with rec.must_not_raise("run_failed"):
         cfg = pyx.build(run_spec, render=case["render"], tmp=rec.tmp)
-        result = pyx.run(cfg, debug=debug, sync=True)
+        result = pyx.run(cfg, debug=debug, sync=True, entry="legacy" if mode.endswith("_legacy") else "run_mode")
     if result is None:
         return
+    if mode.endswith("_legacy"):  # (pyxel.exposure_mode / pyxel.observation_mode: same oracles as the underlying mode)
+        mode = mode[:-len("_legacy")]
     trace = list(P.TRACE)
     for r in trace:
         if r["name"] != r["tag"]:
@@ -163,7 +165,7 @@ def body(case, rec):
                             getattr(cfg.pipeline, g).__getattr__(e["model"]).enabled = e["enabled"]
             P.reset()
             with rec.must_not_raise("rerun_failed"):
-                pyx.run(cfg, debug=False, sync=True)
+                pyx.run(cfg, debug=False, sync=True, entry="legacy" if case["mode"].endswith("_legacy") else "run_mode")
             obs2 = _observed(list(P.TRACE))
             ref2 = _strip(reference_calls(cur, steps))
             rec.check(canon(obs2) == canon(ref2), "call_list_mismatch_after_reconfiguration",
